@@ -19,10 +19,10 @@ LEVEL = "exploration"
 RULE = (
     "Histories over the operations {open(use_cache, create_cache, rpc in {1, N, N+1, default}, "
     "options dict plain / with nested storage_options / absent), cli-create(adjacent | user dir, "
-    "rpc), open of the same product on memory:// or vtrace:// (uncached, with / without storage_options), delete local cache, delete adjacent cache, tear (truncate) the index files of one location, reload an earlier returned tree}. Quick: a "
+    "rpc), open with create_cache=True while the user cache dir cannot be created (allowed to fail with OSError, not to write elsewhere), open of the same product on memory:// or vtrace:// (uncached, with / without storage_options), delete local cache, delete adjacent cache, tear (truncate) the index files of one location, reload an earlier returned tree}. Quick: a "
     "Hypothesis RuleBasedStateMachine (120 machines x <= 12 steps) plus all histories of length "
-    "<= 2 over a 14-operation alphabet and all 96 'produce a cache, disturb it, open' triples; thorough: breadth-first enumeration of ALL histories up "
-    "to length 4 over that alphabet (41370 per product) for a level-1.1 ScanSAR-like product (image files differ only in the scan suffix) and a level-1.5 product. "
+    "<= 2 over a 15-operation alphabet and all 96 'produce a cache, disturb it, open' triples; thorough: breadth-first enumeration of ALL histories up "
+    "to length 4 over that alphabet (54240 per product) for a level-1.1 ScanSAR-like product (image files differ only in the scan suffix) and a level-1.5 product. "
     "Invariants after every step: the returned tree equals the uncached reference for this "
     "step's rpc; the product directory (listing + sha256) is unchanged except index files made "
     "by cli-create; the user cache dir contains exactly the index files the model predicts "
@@ -278,6 +278,37 @@ class World:
                     out.append(harness.disc("exception", what, "loadable tree", harness.exc_text(ferr)))
                 else:
                     out.extend(dict(d, where=f"history step: {d['where']}") for d in harness.diff_flat(ref, flat, kind="history-differs")[:4])
+        elif kind == "open_blocked":
+            # the user cache dir cannot be written (a regular file sits where the product's cache
+            # directory would be created): an open asked to create the cache may fail with OSError
+            # or return the right tree - but it must not write anywhere else
+            if not self.hash_dir.exists() and not self.local:
+                self.hash_dir.parent.mkdir(parents=True, exist_ok=True)
+                self.hash_dir.write_text("not a directory")
+                try:
+                    opts = {"use_cache": op.get("use_cache", False), "create_cache": True}
+                    before = copy.deepcopy(opts)
+                    tree, err = harness.guard(ceos_alos2.open_alos2, self.url, backend_options=opts)
+                finally:
+                    if self.hash_dir.is_file():
+                        self.hash_dir.unlink()
+                if opts != before:
+                    out.append(harness.disc("options-mutated", what, before, opts))
+                served = op.get("use_cache", False) and all(
+                    im in self.adjacent and im not in self.torn_adjacent for im in self.images)
+                if err is not None and not isinstance(err, OSError):
+                    out.append(harness.disc("exception", what, "a tree or an OSError", harness.exc_text(err)))
+                elif err is not None and served:
+                    out.append(harness.disc("exception", what, "a tree (a usable adjacent cache serves every image)", harness.exc_text(err)))
+                elif err is None:
+                    ref, _ = reference(self.level, "default")
+                    flat, ferr = harness.guard(harness.flatten, tree)
+                    if ferr is not None:
+                        out.append(harness.disc("exception", what, "loadable tree", harness.exc_text(ferr)))
+                    else:
+                        out.extend(dict(d, where=f"history step: {d['where']}") for d in harness.diff_flat(ref, flat, kind="history-differs")[:4])
+                if self.hash_dir.is_dir() and not any(self.hash_dir.iterdir()):
+                    self.hash_dir.rmdir()
         elif kind == "cli":
             tag = op.get("rpc", "default")
             for image in self.images:
@@ -366,6 +397,7 @@ ALPHABET = [
     {"op": "tear", "where": "user"},
     {"op": "tear", "where": "adjacent"},
     {"op": "open_remote", "fs": "memory", "opts": "storage_options"},
+    {"op": "open_blocked", "use_cache": False},
 ]
 
 
@@ -398,6 +430,7 @@ op_strategy = st.one_of(
     st.just({"op": "delete_local"}),
     st.just({"op": "delete_adjacent"}),
     st.fixed_dictionaries({"op": st.just("tear"), "where": st.sampled_from(["user", "adjacent"])}),
+    st.fixed_dictionaries({"op": st.just("open_blocked"), "use_cache": st.booleans()}),
     st.fixed_dictionaries({"op": st.just("open_remote"), "fs": st.sampled_from(["memory", "vtrace"]), "opts": st.sampled_from(["plain", "storage_options", "absent"])}),
     st.fixed_dictionaries({"op": st.just("reload_old"), "index": st.integers(0, 5)}),
 )
@@ -461,7 +494,7 @@ def classify(case):
 
 LEVEL_TEXT = (
     "Model-based stateful testing of open histories: a Hypothesis rule-based state machine and a "
-    "breadth-first enumeration of all bounded histories over a 14-operation alphabet; after every "
+    "breadth-first enumeration of all bounded histories over a 15-operation alphabet; after every "
     "step the returned tree, the product directory, the user cache directory, the caller's option "
     "dicts, the library's default dicts and all earlier trees are checked against a model of the "
     "cache state. Exhaustive up to history length 4 (thorough) / 2 (quick) for two products."
